@@ -8,10 +8,10 @@ CLAIMED = {
          "Seeded search over interleavings of incrementing tasks with the periodic report loop, the root's Close and report-on-reacquire (plain and cached recording reporters, slow-reporter and clock faults, seeded map order and shard placement); per identity the delivered sum must equal the increments applied while the scope was live, no negative delta for non-negative histories, nothing delivered by an idle pass. Exploration: a clean batch is evidence, not proof.",
          "Trusts the shim fidelity (sync, atomics, channels modelled at operation granularity; Go atomics are SC), testing/synctest's fake clock, and the ledger model; yields only at synchronisation operations."),
  "C02": ("6/C02", "deterministic simulation: seeded schedules of one updater per gauge vs concurrent report passes, latest-value oracle over the recorded history",
-         "Seeded search over interleavings of Update (two atomic stores) with report passes (swap + load) from the ticker, Close and report-on-reacquire; unique bit patterns incl. NaN payloads, infinities, -0, subnormals; every delivered value must have been passed to Update earlier, deliveries never outnumber updates, after updates stop and a complete pass ran the reporter's most recent value is the last update, an idle pass re-delivers nothing. Exploration.",
+         "Seeded search over interleavings of Update (two atomic stores) with report passes (swap + load) from the ticker, Close and report-on-reacquire; unique bit patterns incl. NaN payloads, infinities, -0, subnormals; bystander tasks requesting the same gauge concurrently without updating it; every delivered value must have been passed to Update earlier, deliveries never outnumber updates, after updates stop and a complete pass ran the reporter's most recent value is the last update, an idle pass re-delivers nothing. Exploration.",
          "As C01; pass boundaries are taken from the reporter seam (Flush), not from internals."),
  "C07": ("6/C07", "deterministic simulation: seeded schedules of obtain/record/Close/re-request cycles vs report passes, per-scope-object obligation ledger",
-         "Seeded search over interleavings of {obtain subscope, record, Close, obtain again, record} cycles on 1-3 identities sharing registry shards with the periodic pass, report-on-reacquire and (sometimes) the root's Close; obligations are kept per returned scope object (recorded before its Close was invoked = required, overlapping or later = optional, through a scope derived from an already closed scope = forbidden); delivered sums must match, a re-requested scope must be functional, no panic or deadlock. Exploration.",
+         "Seeded search over interleavings of {obtain subscope, record, Close, obtain again, record} cycles on 1-3 identities sharing registry shards with the periodic pass, report-on-reacquire and (sometimes) the root's Close; obligations are kept per returned scope object (recorded before its Close was invoked = required, overlapping or later = optional, through a scope derived from an already closed scope = forbidden, also when the same child was derived earlier and is still live); delivered sums must match, a re-requested scope must be functional, no panic or deadlock. Exploration.",
          "As C01."),
  "C08": ("6/C08", "deterministic simulation: Close injected at seeded points (before/between/inside a periodic pass, inside a slow reporter call, 1-3 concurrent callers), ordered-log barrier oracle",
          "Seeded search over the point at which 1-3 tasks call the root's Close relative to the ticker and to slow reporter calls, with recorders that keep using old handles and request new scopes afterwards, reporters with and without io.Closer and with a failing Close; the ordered reporter log must show everything recorded before the first Close call delivered, then a Flush, then exactly one reporter Close, all before any Close call returns, nothing running or starting afterwards, the root's goroutine gone, later Close calls nil. Exploration.",
@@ -20,7 +20,7 @@ CLAIMED = {
          "Seeded search over interleavings of concurrent first-use registrations of the same counters, gauges, timers, histograms and child scopes (1-64 registry shards) with recording on registered metrics and report passes; all callers must receive the same object, a cached reporter sees at most one Allocate per (name, tags, kind) and one bucket allocation per bucket, everything recorded through any handle is delivered, no panic/deadlock. Exploration.",
          "As C01. Data races between plain memory accesses are covered by the -race slice of the check only (happens-before based, schedule dependent)."),
  "C10": ("6/C10", "deterministic simulation: Record/Start/Stop/Exec histories interleaved with report passes on a fake clock; synchronous-forwarding and elapsed-time oracle",
-         "Seeded search over record histories on timers in several scopes (unique and extreme durations) interleaved with report passes, on plain, cached and reporter-less test scopes; every Record must produce exactly one delivery with its value, name and tags, made by the recording task before Record returns, passes deliver no timer values, stopwatches record the fake-clock time between Start and Stop, an instrumented call runs once, returns its error, records one latency and bumps exactly one counter. Exploration.",
+         "Seeded search over record histories on timers in several scopes (unique and extreme durations) interleaved with report passes, on plain, cached, plain+cached and reporter-less test scopes; every Record must produce exactly one delivery (through the cached handle whenever a cached reporter is configured) with its value, name and tags, made by the recording task before Record returns, passes deliver no timer values, stopwatches record the fake-clock time between Start and Stop, an instrumented call runs once, returns its error, records one latency and bumps exactly one counter. Exploration.",
          "As C01; stopwatch bounds use the simulated clock read before/after Start and Stop."),
  "C11": ("6/C11", "deterministic simulation: test-scope histories with quiescent and concurrent snapshots compared with a reference ledger",
          "Seeded search over record histories on a test scope and derived scopes with snapshots taken concurrently and at quiescence; a quiescent snapshot must equal the reference ledger exactly (keys, names, tags, counter sums, last gauge bits, timer values, every bucket incl. empty ones and duplicated bounds), a concurrent one must lie between completed and invoked increments, a snapshot must not change after later recording, mutating it must not affect the scope, closed test subscopes stay visible. Exploration; the snapshot contents are input-dominated, the simulator adds the concurrent snapshots and seeded map order.",
@@ -29,19 +29,19 @@ CLAIMED = {
          "Seeded generation of bucket specifications (value/duration, unsorted, duplicated, negative, single, nil) and samples (each bound, one ulp / ns either side, extremes, +-Inf, NaN, wrong kind), recorded concurrently with report passes on plain, cached and test scopes; the buckets handed to the reporter must tile the line and equal the reference tiling, every sample must be delivered in the one bucket the reference model names (NaN: at most one), per-bucket counts are conserved, nothing panics. Exploration; which bucket a sample belongs to is a pure function of the input (covered by generation only), the simulator contributes record||report histories, the two reporter paths and conservation.",
          "As C01; reference bucket model written from the statement (first upper bound >= sample)."),
  "C20": ("6/C20", "deterministic simulation: concurrent histogram creation with bucket sets built to collide in the shared bucket cache; per-histogram tiling oracle + caller-slice immutability",
-         "Several tasks create histograms under one root at the same time with permutations of one set, sets with equal sums of bit patterns and value/duration sets of equal identity, some sharing one caller slice; each histogram must deliver exactly the tiling of the bounds it was created with, and BucketPairs / Histogram never modify the caller's slice. Exploration. Claimed for the keeps-its-bounds and never-modifies clauses only: the constructor clauses (recurrence, rejected arguments, Must* panics) are pure functions and not part of what this check decides.",
+         "Several tasks create histograms under one root at the same time with permutations of one set, sets with equal sums of bit patterns and value/duration sets of equal identity, some sharing one caller slice, some built one after the other in one scratch slice that the caller overwrites; each histogram must deliver exactly the tiling of the bounds it was created with, and BucketPairs / Histogram never modify the caller's slice. Exploration. The constructor clauses (recurrence, rejected arguments, Must* panics) are pure functions: they are checked by seeded, boundary-biased calls against the recurrence (plain input generation inside the same runs, no schedule involved, no coverage of the argument space claimed).",
          "As C03."),
  "C04": ("6/C04", "deterministic simulation: concurrent derivation programs (depth 0-6) with seeded strings, caller-map mutation while passes run; name/tag reference model + per-identity ledger at the reporter seam",
          "Seeded derivation programs (SubScope/Tagged chains, any prefix/separator/root tags, ASCII, multi-byte and invalid UTF-8 strings, with and without a sanitizer) run by concurrent tasks with all metric kinds at the leaves; every value recorded through a handle must be delivered under exactly the name and tag set the reference model derives, nothing under any other identity, caller maps are neither mutated nor retained (mutated by the harness afterwards), maps handed to the reporter never change. Exploration; the derivation is a function of the program (covered by generation), the simulator adds concurrent derivation, caller-map mutation during passes and seeded map order in the merge/key code.",
          "As C01; an empty subscope name under an empty prefix is accepted in both readings of the statement; when a sanitizer maps two keys of one Tagged map to the same key the run is skipped (precedence undefined)."),
  "C05": ("6/C05", "deterministic simulation: sets of derivations equal modulo order/grouping or differing in one component, 1-64 registry shards, delimiter and empty-key strings; pointer-identity + disjoint-ledger oracle; key function vs documented format",
-         "Concurrent tasks derive the same identity through permuted and regrouped Tagged/SubScope chains, or an identity differing in one component, incl. pairs whose documented keys coincide because a component contains ',', '=' or '+', and empty tag keys; equal identities must return the same scope and metric object, different identities never share one and their ledgers stay disjoint; the public key function must be deterministic under every (seeded) map order and follow the documented format. Exploration; input-dominated.",
+         "Concurrent tasks derive the same identity through permuted and regrouped Tagged/SubScope chains, or an identity differing in one component, incl. pairs whose documented keys coincide because a component contains ',', '=' or '+', twins around an escape character (a component ending in a backslash or percent sign next to a real delimiter), and empty tag keys; equal identities must return the same scope and metric object, different identities never share one and their ledgers stay disjoint; the public key function must be deterministic under every (seeded) map order and follow the documented format. Exploration; input-dominated.",
          "As C04."),
  "C06": ("6/C06", "deterministic simulation: sanitizer called from concurrent tasks over a pooled-buffer shim (LIFO reuse, seeded GC drop) + monitor on every string at the reporter seam; rune-level reference model",
          "Seeded SanitizeOptions (arbitrary, empty, single-rune, multi-byte ranges, extra characters, any replacement rune) and strings up to 4 KiB biased to range end points +-1, multi-byte and invalid UTF-8; Name/Key/Value are called from several tasks at once while a scope workload pushes prefix, separator, subscope names, tags of every level and the cardinality metrics through the reporter seam; outputs must equal the reference model, contain only allowed or replacement runes, be idempotent and rune-count preserving, valid input unchanged. Exploration; the per-string function is pure (covered by generation), the simulator adds buffer-pool reuse across tasks and the whole-path monitor.",
          "As C01; the pool shim hands the most recently returned buffer to the next caller so that use-after-put is observable."),
  "C12": ("6/C12", "deterministic simulation: real M3 reporter + real thrift encoder over an in-memory UDP socket; every datagram measured and decoded, seeded batch compositions, packet sizes, protocols and producer interleavings",
-         "Several producer tasks report seeded mixtures (incl. homogeneous bursts of tiny metrics and of histogram buckets, names up to 600 bytes, 0-8 tags, extreme values, 0-4 common tags, Compact and Binary, flushes at seeded positions, MaxPacketSizeBytes from a few metrics' worth up to 60000) through the real reporter, batching goroutine and codec into a simulated socket; every datagram with more than one metric must be <= MaxPacketSizeBytes, the decoded multiset must equal what was reported and each producer's order is preserved. Exploration; batch composition is input-dominated, the simulator adds producer interleavings, queue pressure and flush timing.",
+         "Several producer tasks report seeded mixtures (incl. homogeneous bursts of tiny metrics and of histogram buckets, names up to 600 bytes, 0-8 tags, extreme values, 0-4 common tags, Compact and Binary, flushes at seeded positions, MaxPacketSizeBytes from a few metrics' worth up to 60000) through the real reporter, batching goroutine and codec into a simulated socket; every datagram with more than one metric handed to the socket must be <= MaxPacketSizeBytes - also the ones after an injected send failure (a quarter of the runs) -, the decoded multiset must equal what was reported (a failed datagram may be missing as a whole) and each producer's order is preserved. Exploration; batch composition is input-dominated, the simulator adds producer interleavings, queue pressure and flush timing.",
          "As C01; datagrams carrying a single metric are exempt (the statement assumes each metric fits on its own). The thrift codec runs real but un-instrumented."),
  "C13": ("6/C13", "deterministic simulation: Allocate/Report/Flush histories from concurrent tasks followed by Close against the real reporter; decoded-datagram multiset, tag, timestamp and barrier oracle; separate send-fault profile",
          "Every emitted datagram is decoded with the real codec and must be exactly one well-formed one-way emitMetricBatchV2 message carrying the configured common tags; every value reported before Close was called must appear exactly once with the name, kind, value and tags it was allocated with (bucket id / range tags for buckets, ids increasing with the bounds), timestamp between construction and the return of the call, everything emitted before Close returns, every destination receiving identical datagrams. Tag sets include pairs colliding in the reporter's tag-cache hash; values are reported immediately after construction. Under injected send errors a failed datagram may be missing as a whole, never altered or duplicated. Exploration.",
@@ -50,7 +50,7 @@ CLAIMED = {
          "Seeded interleavings of Allocate/Report on shared handles, Flush and concurrent Close callers (plus calls after Close) with queue sizes 1-4 and destinations that fail or are closed mid-run; no task may panic (send on closed channel), every task completes (deadlock = no enabled task after bounded clock advances, livelock = no completion under fair scheduling), exactly one Close returns nil, nothing goes on the wire after Close returned, the reporter's goroutines have exited. Exploration.",
          "As C12. The data-race clause is covered only by the -race slice (happens-before based, schedule dependent)."),
  "C15": ("6/C15", "deterministic simulation with fault sequences: Write/WriteByte/WriteString/Flush/Close sequences with oversize writes, send errors, closed sockets and abandoned messages against a byte-buffer reference model",
-         "Seeded call sequences on the single and multi destination UDP transports with chunk sizes around the 65000 byte limit and faults at seeded positions (refused write, failing send, socket closed by the environment, writer abandoning a message after an error); each Flush must produce exactly one datagram with exactly the bytes accepted since the previous Flush and leave the buffer empty whether or not the send failed, refused writes send nothing, the next message arrives complete and alone, multi transport fans out when no destination fails, Close is idempotent, use after Close errors. fault_enumeration-style exploration of a sequential API; no interleavings are involved (the transport is not used concurrently).",
+         "Seeded call sequences on the single and multi destination UDP transports with chunk sizes around the 65000 byte limit and faults at seeded positions (refused write, failing send, socket closed by the environment, writer abandoning a message after an error); each Flush must produce exactly one datagram with exactly the bytes accepted since the previous Flush and leave the buffer empty whether or not the send failed, refused writes send nothing, the next message arrives complete and alone, the multi transport fans out when no destination fails and, when one does (faults may be aimed at a single destination), never sends any destination anything but exactly one Flush's message; Close is idempotent, use after Close errors and sends nothing. fault_enumeration-style exploration of a sequential API; no interleavings are involved (the transport is not used concurrently).",
          "The socket is a stub (errors are 'this send returns an error'). Known finding D9 (stale prefix after an abandoned message) is recognised by its signature and reported as KNOWN-FINDING."),
  "C17": ("6/C17", "deterministic simulation: record histories through a scope into the real Prometheus reporter and a private registry, Gather compared with a reference ledger; separate conflict profile with returning and panicking error callbacks",
          "Concurrent tasks record on counters, gauges, timers (summary and histogram flavour) and histograms with strictly increasing finite bounds (samples on the bounds) while report passes run; after the final pass Gather must show the ledger sum per counter, the last update per gauge, cumulative bucket counts equal to the number of samples <= each bound (durations in seconds) and the sample total, the number of recorded values per timer, one family per name with one series per tag-value set. Conflict profile: first uses reusing a name across kinds or with other tag keys, with callbacks given via Options and via Configuration.OnError that return, log or panic; whenever the callback returns the caller must hold a usable metric, and no panic may be a runtime error (nil dereference) or come from anywhere but the configured callback. Exploration; value agreement is input-dominated, the simulator adds concurrent first use, record||report and the callback/panic paths.",
